@@ -40,8 +40,11 @@ class Observable:
                 f"from {old_value} to {new_value}"
             )
         )
-        for observer in self._observers:
-            observer(sender, old_value, new_value)
+        # An observer may unwatch (itself or others) from inside its callback, so
+        # walk a copy of the list and skip those that have been removed meanwhile
+        for observer in list(self._observers):
+            if observer in self._observers:
+                observer(sender, old_value, new_value)
 
     @property
     def has_observers(self) -> bool:
